@@ -49,9 +49,10 @@ CFG = dict(
     ocaml="c15",
     race=True,
     casesv=c15_casesv,
-    rule=("every handler script of <= 2 actions (thorough: 3) over a 15-symbol alphabet {header-map only, WriteHeader 200/404/500/599, "
+    rule=("every handler script of <= 2 actions (thorough: 3) over a 17-symbol alphabet {header-map only, WriteHeader 200/404/500/599, "
           "body by Write / io.Copy(strings.Reader) / io.Copy(file, 9 KiB), Flush(), FlushError(), Store.Error404 / Error500 / "
-          "Redirect(302) / Respond200 / RespondJson} optionally ended by a panic: all 28 value kinds behind prefixes of <= 1 action, 8 "
+          "Redirect(302) / Respond200 / RespondJson, replacing Store.R by a request whose context has expired, cancelling the request's "
+          "context} optionally ended by a panic: all 28 value kinds behind prefixes of <= 1 action, 8 "
           "core kinds behind every prefix (kinds: string, error, int, struct, slice, map, nil, typed nil pointer whose Error() "
           "dereferences, non-nil values whose Error / String / MarshalText / MarshalJSON / Format / LogValue panic, errors wrapping "
           "http.ErrAbortHandler via %w and errors.Join, typed nil error whose Unwrap() panics, genuine runtime.Error values (nil map "
@@ -60,7 +61,9 @@ CFG = dict(
           "New, With(..), WithGroup(..) and With.WithGroup.With, rotating - the derived attributes and group must be on every record) at Info, through a real HTTP server and by direct ServeHTTP (quick: both modes on one handler per script, rotating, "
           "one mode on the other two; thorough: both on all); scripts of <= 1 action (+ core panic) at thresholds "
           "Debug/Warn/Error/Fatal; seeded random scripts of <= 9 actions with any code 200..599 incl. repeated WriteHeader; methods "
-          "GET/POST/PUT/DELETE/PATCH/HEAD/OPTIONS; matched and unmatched routes; 1..64 requests in flight per batch; "
+          "GET/POST/PUT/DELETE/PATCH/HEAD/OPTIONS; direct calls whose context is already cancelled / expired at entry (12 %); a raw TCP client "
+          "that half-closes after sending the request (net/http cancels the context, the handler waits for that, then returns / writes / "
+          "panics; 180 requests); matched and unmatched routes; 1..64 requests in flight per batch; "
           "non-trivial = distinct (mode, handler, threshold, route, method, script)"),
     trusted_base=[HARNESS_TB, EXTRACT_TB,
                   "net/http response semantics as written in Model/Relay.v (first WriteHeader wins, implicit 200, no 1xx) and Go's "
